@@ -346,6 +346,45 @@ fn run_direct(unit: &Value, out: &mut UnitResult) {
     }
 }
 
+/// Thread interleavings: the loom model lives in its own binary (harness/lockx).
+fn run_threads(unit: &Value, out: &mut UnitResult) {
+    let exe = std::env::current_exe().unwrap().parent().unwrap().join("lockx");
+    if !exe.exists() || crate::report::verif_root().join("build").join("lockx.failed").exists() {
+        out.machinery_errors.push("the loom model (harness/lockx) is not built; see build/cargo-lockx.log".into());
+        return;
+    }
+    let o = std::process::Command::new(&exe).arg(unit["tier"].as_str().unwrap_or("quick")).env_remove("LD_PRELOAD").output();
+    match o {
+        Ok(o) if o.status.success() => match serde_json::from_slice::<Value>(&o.stdout) {
+            Ok(v) => {
+                let schedules = v["schedules"].as_u64().unwrap_or(0);
+                out.evaluations += schedules;
+                out.states += schedules;
+                out.transitions += schedules;
+                out.traces_validated += schedules;
+                out.count("loom_models", v["models"].as_u64().unwrap_or(0));
+                out.count("loom_schedules", schedules);
+                out.maxi("loom_preemption_bound", v["preemption_bound"].as_u64().unwrap_or(0));
+                out.class("threads:explored");
+                let mut seen = std::collections::BTreeSet::new();
+                for m in v["violations"].as_array().cloned().unwrap_or_default() {
+                    let m = m.as_str().unwrap_or("").to_string();
+                    if seen.insert(m.clone()) {
+                        out.violation("thread-interleaving", format!("loom: {m}"), json!({"unit": unit, "message": m}));
+                    }
+                }
+            }
+            Err(e) => out.machinery_errors.push(format!("lockx output unparsable: {e}")),
+        },
+        Ok(o) => {
+            // loom aborts the process when the model itself panics (e.g. a deadlock it detected)
+            let err = String::from_utf8_lossy(&o.stderr);
+            out.violation("thread-interleaving", format!("the loom model aborted ({:?}): {}", o.status, err.lines().rev().take(6).collect::<Vec<_>>().join(" | ")), json!({"unit": unit}));
+        }
+        Err(e) => out.machinery_errors.push(format!("cannot run lockx: {e}")),
+    }
+}
+
 impl Check for C04 {
     fn meta(&self, _tier: Tier) -> CheckMeta {
         CheckMeta {
@@ -373,18 +412,25 @@ impl Check for C04 {
             }
         }
         u.extend(histories::units(tier, "C04"));
+        u.push(json!({"kind":"threads","tier":tier.as_str()}));
         u
     }
 
     fn run_unit(&self, tier: Tier, unit: &Value, out: &mut UnitResult) {
         match unit["kind"].as_str().unwrap() {
             "direct" => run_direct(unit, out),
+            "threads" => run_threads(unit, out),
             _ => histories::run_unit(tier, unit, out, "C04"),
         }
     }
 
     fn replay(&self, replay: &Value) -> String {
         let unit = replay["unit"].clone();
+        if unit["kind"] == "threads" {
+            let mut out = UnitResult::default();
+            run_threads(&unit, &mut out);
+            return format!("loom model re-run: {} schedules\n{:#?}", out.evaluations, out.violations.iter().map(|v| &v.message).collect::<Vec<_>>());
+        }
         if unit["kind"] == "direct" {
             let mut out = UnitResult::default();
             run_direct(&unit, &mut out);
